@@ -1,0 +1,9 @@
+//go:build !verif
+
+package s3db
+
+import "github.com/jrhy/s3db/kv"
+
+// verifS3 is the verification hook of OpenKV; without the verif build tag
+// it is the identity.
+func verifS3(_ S3Options, c kv.S3Interface) kv.S3Interface { return c }
